@@ -1645,6 +1645,8 @@ class Interp:
             return modular.apply_contract(self, c, fi, args, kwargs)
         if self.call_depth > self.MAX_INLINE_DEPTH:
             raise OutOfSubset(f"inlining depth exceeded at {fi.qualname} (recursion without contract?)")
+        if getattr(fi, "unmodelled_decos", None):
+            raise OutOfSubset(f"{fi.qualname} is wrapped by decorator(s) {fi.unmodelled_decos} whose effect on the call is not modelled")
         if key != self.verifying:
             self.inlined.add(f"{fi.module.relpath}:{fi.qualname}")
         env = Env(fi.module, fi.closure or fi.module.ns)
